@@ -106,7 +106,7 @@ EXT_POOL = [
     "M205 X8 Y8", "M205 J0.02", "M73 P25 R40", "M73 P50", "G4 P100", "G4 S1", "M900 K0.2", "T0",
     "M104 S210", "M140 S60", "M220 S100", "M221 S95", "M400", "G29", "M114", "M82.5",
     "G10 P1 L2 X0.5", "G10 L2 P1 X0 Y0",      # tool / workspace offsets: not retractions (P or L present), passed through
-    "M204 S.5", "M205 X-.25 Y5.", "M73 P+7 R007", "M900 K.08",
+    "M204 S.5", "M205 X-.25 Y5.", "M73 P+7 R007", "M900 K.08", "M205X8E5", "M204P500T1000",
 ]
 
 
@@ -178,7 +178,8 @@ def one_op(p, inner=False):
         if p.get("stress"):
             parts += [(6, st.tuples(st.just("stress"),
                                     st.sampled_from(["roundoff", "roundoff", "tiny_e", "tiny_e", "huge_xy", "huger_xy", "tiny_xy", "inch_feed",
-                                                     "tiny_merge", "huge_merge", "tiny_z", "leave_far", "tiny_base", "tiny_base", "spelled_merge"]),
+                                                     "tiny_merge", "huge_merge", "tiny_z", "leave_far", "tiny_base", "tiny_base", "spelled_merge",
+                                                     "twin_merge"]),
                                     st.integers(1, 9), st.integers(0, 8)))]
         if p.get("again", 2):
             # the previous move command once more, character for character (a second relative step; a null move in absolute mode)
@@ -608,6 +609,13 @@ class Renderer(object):  # pylint: disable=too-many-instance-attributes
             # legal spellings a careless number pattern mis-reads: no leading zero, trailing point, explicit plus, leading zeros
             self.g(["M204 S%s", "M205 X%s", "M73 P%s", "M204 T%s P%s"][m % 4].replace("%s P%s", "%s P" + ["5.", ".5"][n % 2])
                    % [".08", "-.35", "5.", "+7", "007", "-.5", "+.25", "0.", "-0"][n % 9])
+        elif what == "twin_merge":
+            # two different deferred codes with byte-identical parameter text back to back, then one of them again; and words
+            # written without blanks where an E word follows a digit
+            v = (500, 1000, 8)[n % 3]
+            self.g("M204 S%d" % v)
+            self.g("M205 S%d" % v)
+            self.g(("M205 X%d", "M204 T%d", "M205X8E5", "M204P500T1000")[m % 4] % ((n + 3,) if m % 4 < 2 else ()))
         elif what == "huge_merge":
             self.g(["M204 T%s", "M205 J%s", "M73 R%s"][m % 3] % ("%d" % (n * 10 ** (16 + m))))
 
@@ -634,6 +642,41 @@ class Renderer(object):  # pylint: disable=too-many-instance-attributes
         self.nreg += 1
         self.regions.append(reg)
         self.prog.append(["reg", reg])
+
+    def raster(self, k, where, codes):
+        """A long stretch of k *distinct* moves (a 0.05 / 0.25 mm lattice): in the always free corner beyond (70,70) or inside a
+        region that is large enough (all suppressed), optionally sprinkled with distinct deferred-code instances."""
+        pr = self.pr
+        was_abs = pr.abs
+        if not was_abs:
+            self.g("G90")
+        box = None
+        if where == "in":
+            for reg in self.regions:
+                if reg["type"] == "rect":
+                    x1, y1, x2, y2 = geom.norm_rect(reg)
+                else:
+                    h = reg["r"] * 0.7
+                    x1, y1, x2, y2 = reg["cx"] - h, reg["cy"] - h, reg["cx"] + h, reg["cy"] + h
+                if x2 - x1 >= 2.5 and y2 - y1 >= 2.5:
+                    box = (x1 + 0.2, y1 + 0.2, x2 - 0.2, y2 - 0.2, 0.05)
+                    break
+        if box is None:
+            box = (70.0, 70.0, 95.0, 95.0, 0.25)
+        x1, y1, x2, y2, step = box
+        ncol = max(2, int((x2 - x1) / step))
+        for n in range(k):
+            row, col = divmod(n, ncol)
+            if row % 2:
+                col = ncol - 1 - col
+            y = y1 + step * row
+            if y > y2:
+                break
+            self.g("G1 X%s Y%s" % (fmt(self.lx("x", x1 + step * col), 6), fmt(self.lx("y", y), 6)))
+            if codes and n % 9 == 4:
+                self.g(("M117 L%d", "M73 P%d", "M204 S%d", "M205 X%d")[(n // 9) % 4] % (n // 9 + 1))
+        if not was_abs:
+            self.g("G91")
 
     def replace_region(self, o):
         """The user edits a region mid-print (API update): same id, new geometry (borders stay off the move grid)."""
@@ -776,6 +819,8 @@ def respell(cmd, style):
     parts = cmd.split(" ")
     if style == "plain" or parts[0] not in ("G0", "G1", "G2", "G3", "G92"):
         return cmd
+    if style == "packed":
+        return "".join(parts)        # no blanks between the words at all (G1X50Y50E1.5)
     out = [parts[0]]
     for w in parts[1:]:
         m = _WORD.match(w)
@@ -822,12 +867,18 @@ def cases(draw, p):
               z0=bool(p.get("z0_start", True) and draw(st.integers(0, 5)) == 0))
     # a long print now and then: the same abstract ops over and over (each pass renders differently, from where the last one
     # ended) - hundreds to a few thousand commands on one filter object
-    reps = draw(st.sampled_from([1] * int(p.get("long", 200)) + [10, 25])) if p.get("long", 200) else 1
-    for _ in range(reps):
-        for o in abstract:
-            rnd.op(o)
+    # a long print now and then: the ops, a long stretch of distinct moves (free space or inside a region), then the same ops
+    # again (many of them render to the very commands of the first pass) - hundreds to thousands of commands on one filter
+    reps = draw(st.sampled_from([0] * int(p.get("long", 40)) + [1])) if p.get("long", 40) else 0
+    for o in abstract:
+        rnd.op(o)
+    if reps:
+        for _ in range(draw(st.integers(1, 2))):
+            rnd.raster(draw(st.sampled_from([150, 300, 600, 1300])), draw(st.sampled_from(["out", "out", "in"])), draw(st.booleans()))
+            for o in abstract:
+                rnd.op(o)
     via = draw(st.sampled_from(["direct", "direct", "plugin"])) if p.get("via_plugin", True) else "direct"
-    spell = draw(st.sampled_from(["plain"] * 5 + ["compact", "plus"])) if p.get("spell", True) else "plain"
+    spell = draw(st.sampled_from(["plain"] * 5 + ["compact", "plus", "packed"])) if p.get("spell", True) else "plain"
     return {"config": cfg, "regions": regions, "prog": respell_prog(rnd.prog, spell), "via": via,
             "meta": {"rewrites": rnd.rewrites, "fw": fw, "delta": delta, "exact": exact,
                      "excluded_known": rnd.excluded_known, "reps": reps}}
